@@ -1,9 +1,10 @@
 """C19 - loading and splitting resolved shortcode loses nothing (SHIM: real functions on symbolic strings + BVRE)."""
+import os
 import random
 import re
 import time
 import z3
-from .. import corpus, framework
+from .. import corpus, framework, tv
 from ..framework import Report
 from ..shim.bvre import SymS, cls_pred, concat_eq
 from ..shim.symstr import SymStr, Shim2, run_real, model_string, concrete_agrees
@@ -15,6 +16,17 @@ def _pp():
     corpus.quiet_imports()
     from rzilcompiler.Preprocessor.Hexagon.PreprocessorHexagon import PreprocessorHexagon
     return PreprocessorHexagon
+
+
+XT = 600000 if os.environ.get("VERIF_TIER") == "thorough" else 120000  # cvc5 time limit per re-decided query (ms)
+
+
+def _xs(rep, r, what):
+    """second solver: every query z3 answered unsat was re-decided by cvc5 on the SMT-LIB2 dump of the same assertions"""
+    for x in r.get("cvc5", []):
+        rep.count_query("cvc5:" + x.split(":")[0])
+        if x == "sat":
+            rep.harness_error(f"{what}: z3 answers unsat, cvc5 answers sat on the same assertions")
 
 
 def q_split_line(N, name_max, newline, timeout_ms):
@@ -45,6 +57,7 @@ def q_split_line(N, name_max, newline, timeout_ms):
     except ValueError:
         raised = True
     r1 = str(s.check())
+    x1 = tv.cvc5_decide(s.to_smt2(), XT) if r1 == "unsat" else None
     s.pop()
     # (ii) on a match, the recovered name/body are the inputs
     shim = Shim2(s, [True], N)
@@ -53,10 +66,12 @@ def q_split_line(N, name_max, newline, timeout_ms):
     want_body = [(line, 7 + ln, 7 + ln + lb)]
     s.add(z3.Or(z3.Not(concat_eq(name.pieces, want_name, N)), z3.Not(concat_eq(body.pieces, want_body, N))))
     r2 = str(s.check())
+    x2 = tv.cvc5_decide(s.to_smt2(), XT) if r2 == "unsat" else None
     cex = None
     if r2 == "sat":
         cex = model_string(s.model(), [(line, z3.IntVal(0), line.L)], N)
-    return dict(no_match_branch=r1, no_match_raises=raised, lossless=r2, cex=cex, pattern=[p for p, _ in shim.log])
+    return dict(no_match_branch=r1, no_match_raises=raised, lossless=r2, cex=cex, pattern=[p for p, _ in shim.log],
+                cvc5=[x for x in (x1, x2) if x])
 
 
 def q_split_compounds(N, pre_max, timeout_ms):
@@ -88,6 +103,7 @@ def q_split_compounds(N, pre_max, timeout_ms):
     s.push()
     s.add(z3.Or(z3.Not(concat_eq(p1.pieces, want1, N)), z3.Not(concat_eq(p2.pieces, want2, N))))
     out["parts"] = str(s.check())
+    out["cvc5"] = [tv.cvc5_decide(s.to_smt2(), XT)] if out["parts"] == "unsat" else []
     if out["parts"] == "sat":
         out["parts_cex"] = model_string(s.model(), [(beh, z3.IntVal(0), beh.L)], N)
     s.pop()
@@ -121,6 +137,13 @@ def _loader_cases(rep, PP):
         body = "{ RdV = 1;" + ch + " RxV = 2; }"
         cases.append((f"body-with-{ch!r}", [good[0], f"insn(W_ws, {body})", good[1]],
                       {"A2_x": want_good["A2_x"], "W_ws": [body], "B_y": want_good["B_y"]}, False))
+    # files larger than any read-buffer / size-hint a loader might use (1.3 MiB, 2.6 MiB of short lines; one 200 KiB line)
+    for nm, cnt in (("big-45k-lines", 45000), ("big-90k-lines", 90000)):
+        big = [f"insn(G{i}_x, {{ RdV = {i}; }})" for i in range(cnt)]
+        cases.append((nm, big, {f"G{i}_x": [f"{{ RdV = {i}; }}"] for i in range(cnt)}, False))
+    longbody = "{ " + "RdV = RdV + 1; " * 14000 + "}"
+    cases.append(("long-line-200k", [good[0], f"insn(L_long, {longbody})", good[1]],
+                  {"A2_x": want_good["A2_x"], "L_long": [longbody], "B_y": want_good["B_y"]}, False))
     n = 0
     for name, lines, want, must_raise in cases:
         n += 1
@@ -151,6 +174,10 @@ def _loader_cases(rep, PP):
                         f"loads without an exception (behaviours: {sorted(got)})", lines=lines)
             else:
                 rep.add(key, "ok", "raises", raised)
+        elif (raised is not None or got != want) and len(str(want)) > 5000:
+            miss = [k for k in want if got.get(k) != want[k]]
+            rep.add(key, "violation", "bundled-load", f"loader gives {raised or len(got)} of {len(want)} definitions of a {sum(map(len, lines)) + len(lines)} "
+                    f"byte file; first lost or altered: {miss[:3]}")
         elif raised is not None or got != want:
             rep.add(key, "violation", "bundled-load", f"loader gives {raised or got!r}, expected {want!r}", lines=lines)
         else:
@@ -216,6 +243,7 @@ def run(tier):
         nq += 2
         rep.count_query(r["no_match_branch"])
         rep.count_query(r["lossless"])
+        _xs(rep, r, f"split_resolved_shortcode newline={newline}")
         key = f"shim:split_resolved_shortcode:N={N}:newline={newline}"
         if r["no_match_branch"] == "sat":
             rep.add(key + ":match", "violation", "well-formed-line-rejected", "a shaped insn(NAME, BODY) line does not match the loader's regex")
@@ -244,6 +272,7 @@ def run(tier):
     nq += 2
     rep.count_query(r["parts"])
     rep.count_query(r["pre_lost"])
+    _xs(rep, r, "split_compounds")
     key = f"shim:split_compounds:N={Nc}"
     if r["parts"] == "sat":
         txt = r["parts_cex"]
